@@ -182,9 +182,14 @@ class Tup(N):
         self.items = list(items)
 
 
-class FuelMatch(N):              # match fuel with | 0 => none | pred + 1 => body
-    def __init__(self, fuel, pred, body, none):
-        self.fuel, self.pred, self.body, self.none = fuel, pred, body, none
+class FuelMatch(N):              # match fuel with | 0 => none | pred + 1 => body   (pat: | [] => none | pat :: pred => body)
+    def __init__(self, fuel, pred, body, none, pat=None):
+        self.fuel, self.pred, self.body, self.none, self.pat = fuel, pred, body, none, pat
+
+
+class Lam(N):                    # fun x => body
+    def __init__(self, x, body):
+        self.x, self.body = x, body
 
 
 class Rec(N):                    # recursive call of a loop function on its tail
@@ -251,8 +256,10 @@ def fv(n, bound=frozenset(), acc=None):
         fv(n.body, bound | frozenset(pat_vars(n.x)), acc)
         fv(n.none, bound, acc)
     elif isinstance(n, FuelMatch):
-        fv(n.body, bound | {n.pred, n.fuel}, acc)
+        fv(n.body, bound | {n.pred, n.fuel} | frozenset(pat_vars(n.pat or ())), acc)
         fv(n.none, bound, acc)
+    elif isinstance(n, Lam):
+        fv(n.body, bound | frozenset(pat_vars(n.x)), acc)
     elif isinstance(n, Tup):
         for a in n.items:
             fv(a, bound, acc)
@@ -289,7 +296,11 @@ def pe(n):
     if isinstance(n, MatchOpt):
         return "(match %s with | some %s => %s | none => %s)" % (pe(n.e), pat_show(n.x), pe(n.body), pe(n.none))
     if isinstance(n, FuelMatch):
+        if n.pat is not None:
+            return "(match %s with | [] => %s | %s :: %s => %s)" % (n.fuel, pe(n.none), pat_show(n.pat), n.pred, pe(n.body))
         return "(match %s with | 0 => %s | %s + 1 => %s)" % (n.fuel, pe(n.none), n.pred, pe(n.body))
+    if isinstance(n, Lam):
+        return "(fun %s => %s)" % (pat_show(n.x), pe(n.body))
     if isinstance(n, Tup):
         return "(" + ", ".join(pe(a) for a in n.items) + ")"
     if isinstance(n, Rec):
@@ -322,7 +333,11 @@ def pp(n, ind):
         out += [sp + "| none => %s)" % pe(n.none)]
         return out
     if isinstance(n, FuelMatch):
-        out = [sp + "(match %s with" % n.fuel, sp + "| 0 => %s" % pe(n.none), sp + "| %s + 1 =>" % n.pred]
+        if n.pat is not None:
+            out = [sp + "(match %s with" % n.fuel, sp + "| [] => %s" % pe(n.none),
+                   sp + "| %s :: %s =>" % (pat_show(n.pat), n.pred)]
+        else:
+            out = [sp + "(match %s with" % n.fuel, sp + "| 0 => %s" % pe(n.none), sp + "| %s + 1 =>" % n.pred]
         out += pp(n.body, ind + 1)
         out[-1] += ")"
         return out
@@ -585,6 +600,8 @@ class Fn:
         if isinstance(st, ast.Assign):
             if len(st.targets) != 1:
                 bad(st, "chained assignment")
+            if isinstance(st.targets[0], ast.Tuple):
+                return self.assign_tuple(st.targets[0], st.value, st, env, after)
             return self.assign(st.targets[0], st.value, None, st, env, after)
         if isinstance(st, ast.AugAssign):
             if not isinstance(st.op, (ast.Add, ast.Sub, ast.Mult)):
@@ -697,11 +714,48 @@ class Fn:
         env2 = self.forget(self.learn(env, pre), [tab])
         return self.wrap(pre, Let(tab, Tm("(List.set {0} {1} {2})", [V(tab), key, v]), after(env2)), st, env)
 
-    def assign(self, tgt, value, op, st, env, after):
-        ref = self.table_ref(tgt, env)
-        if ref is not None:
-            return self.assign_table(ref, value, op, st, env, after)
-        x = self.target_var(tgt, env)
+    def assign_tuple(self, tgt, value, st, env, after):
+        """`a, b = e1, e2` (all right-hand sides are evaluated first) and `q, r = divmod(a, b)` on naturals"""
+        xs = []
+        for t in tgt.elts:
+            if not isinstance(t, ast.Name):
+                bad(st, "tuple assignment to something other than plain variables")
+            xs.append(self.target_var(t, env))
+        if len(set(xs)) != len(xs):
+            bad(st, "tuple assignment with a repeated target")
+        pre, vals, tys = [], [], []
+        if isinstance(value, ast.Tuple) and len(value.elts) == len(xs):
+            for x, e in zip(xs, value.elts):
+                p, v, ty = self.typed_value(x, e, None, None, st, env)
+                pre += p
+                vals.append(v)
+                tys.append(ty)
+        elif isinstance(value, ast.Call) and ast.unparse(value.func) == "divmod" and len(value.args) == 2 \
+                and not value.keywords and len(xs) == 2:
+            p1, a, ta = self.expr(value.args[0], env, "Nat")
+            p2, b, tb = self.expr(value.args[1], env, "Nat")
+            a, b, ty = self.unify(a, ta, b, tb, st)
+            if ty == "IntLit":
+                self.setlit(a, "Nat", st)
+                self.setlit(b, "Nat", st)
+                ty = "Nat"
+            if ty != "Nat":
+                bad(st, "divmod on values that are not natural numbers")
+            pre = p1 + p2 + [("guard", Op("≠", b, C("0")))]              # ZeroDivisionError
+            vals, tys = [Op("/", a, b), Op("%", a, b)], ["Nat", "Nat"]
+            for x in xs:
+                self.observed.setdefault(x, []).append("Nat")
+        else:
+            bad(st, "tuple assignment from something other than a tuple of the same length or divmod")
+        env2 = dict(self.forget(self.learn(env, pre), xs))
+        for x, ty in zip(xs, tys):
+            if x in env and env[x] != ty and env[x] != "IntLit":
+                bad(st, "variable changes type from %s to %s" % (tshow(env[x]), tshow(ty)))
+            env2[x] = ty
+        return self.wrap(pre, Let(tuple(xs), Tup(vals), after(env2)), st, env)
+
+    def typed_value(self, x, value, tgt, op, st, env):
+        """value assigned to variable `x` (typing hints of the previous passes applied) -> (pre, term, type)"""
         hint = env.get(x) or self.vartype.get(x)
         if op is None:
             if isinstance(value, ast.Name) and isinstance(env.get(value.id), tuple) and env[value.id][0] == "List" \
@@ -717,6 +771,14 @@ class Fn:
             v, ty = self.coerce(v, ty, self.vartype[x], st), self.vartype[x]
         elif self.vartype.get(x) and ty != self.vartype[x]:
             v, ty = self.coerce(v, ty, self.vartype[x], st), self.vartype[x]
+        return pre, v, ty
+
+    def assign(self, tgt, value, op, st, env, after):
+        ref = self.table_ref(tgt, env)
+        if ref is not None:
+            return self.assign_table(ref, value, op, st, env, after)
+        x = self.target_var(tgt, env)
+        pre, v, ty = self.typed_value(x, value, tgt, op, st, env)
         if x in env and env[x] != ty and env[x] != "IntLit":
             bad(st, "variable changes type from %s to %s" % (tshow(env[x]), tshow(ty)))
         env2 = dict(self.forget(self.learn(env, pre), [x]))
@@ -939,9 +1001,17 @@ class Fn:
             k = self.while_index.get(id(st))
             if k is None or k >= len(self.fuel):
                 bad(st, "while loop without a fuel entry in the spec")
-            ftxt = "(%s)" % self.fuel[k]
-            pre, lst, ety, pat, patenv = [], Tm(ftxt.replace("{", "{{").replace("}", "}}"), fv=self.mentions(ftxt)), \
-                "Nat", None, {}
+            stream = self.fuel[k] if isinstance(self.fuel[k], dict) else None
+            if stream:
+                # the fuel is an oracle list: every pass consumes one member, whose components are the
+                # values of the names in `pattern` during that pass; the oracle running dry is `none`
+                ftxt = stream["stream"]
+                ety, pat = stream["elem"], stream["pattern"]
+                patenv = dict(zip(pat_vars(pat), ety[1] if isinstance(pat, tuple) else [ety]))
+            else:
+                ftxt = "(%s)" % self.fuel[k]
+                ety, pat, patenv = "Nat", None, {}
+            pre, lst = [], Tm(ftxt.replace("{", "{{").replace("}", "}}"), fv=self.mentions(ftxt))
         else:
             pre = self.snapshot_guard(st, env)
             p2, lst, ety, pat, patenv = self.iterable(st.iter, st.target, env)
@@ -992,8 +1062,8 @@ class Fn:
             self.depth -= 1
         if is_while:
             cpre, c = self.cond(st.test, env)
-            body = self.wrap(cpre, If(c, FuelMatch(fuel, lp.tl, body, self.none(st)), nil), st)
-            pv = {fuel, lp.tl}
+            body = self.wrap(cpre, If(c, FuelMatch(fuel, lp.tl, body, self.none(st), pat), nil), st)
+            pv = {fuel, lp.tl} | set(pat_vars(pat or ()))
             free = [x for x in fv(body) if x not in pv]
         else:
             pv = set(pat_vars(pat)) | {lp.tl}
@@ -1004,7 +1074,7 @@ class Fn:
         assigned = self.assigned
         ptypes = dict(self.params)
         if nested:
-            inner = self.assigned_in(st.body) + ([] if is_while else pat_vars(pat))
+            inner = self.assigned_in(st.body) + pat_vars(pat or ())
             lp.carried = [x for x in free if x in inner and x in env]
             lp.carried += [x for x in env if x in inner and x not in lp.carried and x != self.FACTS]
             if not lp.carried:
@@ -1029,7 +1099,7 @@ class Fn:
             res = lp.ctypes[0] if len(lp.ctypes) == 1 else ("Prod", tuple(lp.ctypes))
             if self.raises:
                 res = ("Option", res)
-        ty = " → ".join([tshow(("List", ety) if not is_while else "Nat", False)]
+        ty = " → ".join([tshow(("List", ety) if (not is_while or pat is not None) else "Nat", False)]
                         + [tshow(env[x], False) for x in lp.carried] + [tshow(res, False)])
         args = "".join(", " + x for x in lp.carried)
         lines = ["def %s %s %s : %s" % (lp.name, self.header, sig, ty)]
@@ -1117,6 +1187,12 @@ class Fn:
         if ty == "IntLit" and want in NUMERIC:
             self.setlit(v, want, node)
             return v
+        if has_unknown(ty) and not has_unknown(want):
+            # a list that starts empty used at a known type: the next typing pass declares it with that type
+            self.unresolved = True
+            if isinstance(v, V):
+                self.observed.setdefault(v.name, []).append(want)
+            return v
         if ty == "Nat" and want == "Int":
             return Tm("({0} : Int)", [v])
         if isinstance(want, tuple) and want[0] == "Option" and not (isinstance(ty, tuple) and ty[0] == "Option"):
@@ -1158,6 +1234,10 @@ class Fn:
             return a, self.coerce(b, tb, ta, node), ta
         if {ta, tb} == {"Nat", "Int"}:
             return self.coerce(a, ta, "Int", node), self.coerce(b, tb, "Int", node), "Int"
+        if ta == "Rat" and tb in ("Nat", "Int"):
+            return a, Tm("({0} : Rat)", [b]), "Rat"                # int op float: the exact value of the integer
+        if tb == "Rat" and ta in ("Nat", "Int"):
+            return Tm("({0} : Rat)", [a]), b, "Rat"
         bad(node, "operands of different types %s and %s" % (tshow(ta), tshow(tb)))
 
     def ratconst(self, x):
